@@ -670,6 +670,84 @@ theorem C09_raw_sequence (conf : Hdr) (wc : WF conf) (pre : List Item) (it : Ite
     simp only [List.cons_append, scanRaw, hr, List.length_cons, List.getElem?_cons_succ]
     exact ih
 
+/-! ### round 3: shared clients, the provider's limit, redirects, the body under the gun's optional features -/
+
+/-- **Shared clients** (`shared-client`, outside the property's "per-instance clients"): `inst` guns bound to a pool of
+`clients` shared transports (the k-th gun takes client `(k+1) % clients`, one client when the number is below one), requests sent
+ONE AT A TIME in any order, keep-alive, nobody asking to close: sharing never costs a connection compared with per-instance
+clients, so the target sees at most as many connections as there are clients and at most as many as there are instances. -/
+theorem C09_shared_client_connections (clients inst : Nat) (fs : List Flight) (hg : ∀ f ∈ fs, f.gun < inst)
+    (hc : ∀ f ∈ fs, f.close = false) :
+    connRun true (max clients 1) (fs.map (viaShared clients)) ≤ connRun true inst fs ∧
+    connRun true (max clients 1) (fs.map (viaShared clients)) ≤ min (max clients 1) inst := by
+  have hpos : 0 < max clients 1 := by omega
+  have h1 : connRun true (max clients 1) (fs.map (viaShared clients)) ≤ connRun true inst fs := by
+    have := connRunFrom_merge (clientOf clients) (List.replicate inst false, 0) (List.replicate (max clients 1) false, 0) fs
+      (by simpa using hg)
+      (by intro f _; simp only [List.length_replicate, clientOf]; exact Nat.mod_lt _ hpos)
+      hc
+      (by intro g h; rw [getD_replicate_false] at h; exact absurd h (by decide))
+      (Nat.le_refl _)
+    have hmap : (fs.map fun f => ({ f with gun := clientOf clients f.gun } : Flight)) = fs.map (viaShared clients) := rfl
+    rw [hmap] at this
+    simpa [connRun] using this
+  have h2 : connRun true (max clients 1) (fs.map (viaShared clients)) ≤ max clients 1 := by
+    apply C09_connections_keepalive
+    · intro f hf
+      obtain ⟨f0, _, rfl⟩ := List.mem_map.mp hf
+      simp only [viaShared, clientOf]
+      exact Nat.mod_lt _ hpos
+    · intro f hf
+      obtain ⟨f0, h0, rfl⟩ := List.mem_map.mp hf
+      exact hc f0 h0
+  have h3 := C09_connections_keepalive inst fs hg hc
+  exact ⟨h1, by omega⟩
+
+/-- **The provider's `limit`**: the requests delivered are the first `lim` of those delivered without a limit (all of them
+when there are fewer); `limit: 0` is no limit. -/
+theorem C09_limit_is_prefix (pre : Bool) (f : Format) (conf : Hdr) (items : List Item) (passes lim : Nat) :
+    (provideLim pre f conf items passes lim).1 =
+      if lim = 0 then (provide pre f conf items passes).1 else (provide pre f conf items passes).1.take lim := by
+  simp only [provideLim]
+  by_cases h0 : lim = 0
+  · simp [h0]
+  · by_cases hl : lim ≤ (provide pre f conf items passes).1.length
+    · simp [h0, hl]
+    · simp only [h0, hl, if_false]
+      rw [List.take_of_length_le (by omega)]
+
+/-- **Redirects are followed only at the operator's demand**: with the default `redirect: false` nothing reaches another host,
+whatever the target answers and however many requests it got. -/
+theorem C09_redirects_only_on_demand (targetRedirects : Bool) (arrived : Nat) :
+    decoyHits false targetRedirects arrived = 0 := by
+  simp [decoyHits]
+
+/-- **The answer log's GetBody keeps the body**: what the transport reads afterwards is what it would have read before,
+a request without a body stays without one, and the bytes kept for the log are those very bytes. -/
+theorem C09_answlog_keeps_body (b : BodyRd) :
+    (getBody b).2.rest = b.rest ∧ (getBody b).2.present = b.present ∧
+    (b.present = true → (getBody b).1 = some b.rest) := by
+  cases hb : b.present <;> simp [getBody, hb, BodyRd.readAll, BodyRd.ofBytes]
+
+/-- without the put-back the body is gone: the repaired statement is not a tautology of the reader model -/
+theorem C09_answlog_without_put_back_counterexample :
+    ¬ (∀ b : BodyRd, (getBodyNoPutBack b).2.rest = b.rest) := by
+  intro h
+  have := h { present := true, rest := [98] }
+  revert this
+  decide
+
+/-- **The optional features of the gun leave the body alone**: whatever combination of debug log, auto-tag, answer log,
+trace and dump is switched on, Client.Do gets a body reader that yields the entry's body bytes. -/
+theorem C09_features_keep_body (ft : Feat) (body : Str) :
+    (bodyAtDo ft (BodyRd.fresh body)).rest = body := by
+  have hg := fun b => (C09_answlog_keeps_body b).1
+  have hd : ∀ b : BodyRd, (dumpRequestBody b).rest = b.rest := by
+    intro b
+    cases hb : b.present <;> simp [dumpRequestBody, hb, BodyRd.readAll, BodyRd.ofBytes]
+  simp only [bodyAtDo]
+  cases ft.answLog <;> cases ft.dump <;> simp [hg, hd, BodyRd.fresh]
+
 /-! ### the model is what the source says now -/
 
 /-- **The regenerated code is the model.** `Pandora.Gen.HttpWire` is re-extracted from /repo's current source on every
@@ -681,7 +759,8 @@ check (translator `/verif/gen -area httpwire`); the functions the theorems above
 * `decodeClose` is the regenerated rule of raw.DecodeRequest over net/http's shouldClose;
 * the http2 constructor's ssl check is the one of `constructible`;
 * `newTransport`, `defaultTransportCfg`, `transportTags` are the regenerated NewTransport literal, DefaultTransportConfig
-  and `config:` tags of TransportConfig (round 2).
+  and `config:` tags of TransportConfig (round 2);
+* `getBody` is the regenerated GetBody of the answer log (round 3).
 (The shape facts — where Setup / NewRequest arguments, the per-gun client, the keep-alive option and the factories'
 Target/TargetResolved come from — are pinned in `Pandora.Bridge.HttpWire` and compiled with this module.) -/
 theorem C09_regenerated_code_is_model :
@@ -705,12 +784,14 @@ theorem C09_regenerated_code_is_model :
     Gen.HttpWire.defaultDisableKeepAlives = false ∧
     (∀ c, Gen.HttpWire.newTransport c = newTransport c) ∧
     Gen.HttpWire.defaultTransportCfg = defaultTransportCfg ∧
-    Gen.HttpWire.transportTags = transportTags :=
+    Gen.HttpWire.transportTags = transportTags ∧
+    (∀ b, Gen.HttpWire.getBody b = getBody b) :=
   ⟨Bridge.HttpWire.enrich_cons, Bridge.HttpWire.shootRewrite_eq, Bridge.HttpWire.getHostWithoutPort_eq,
    fun d i l t => by rw [Bridge.HttpWire.preResolve_eq], Bridge.HttpWire.mergeUri_eq,
    Bridge.HttpWire.uripostMergeStep_eq, Bridge.HttpWire.mergeJson_eq, fun _ _ _ => rfl,
    Bridge.HttpWire.decodeRequestClose_eq, Bridge.HttpWire.http2NeedsSSL_eq, rfl,
-   Bridge.HttpWire.newTransport_eq, Bridge.HttpWire.defaultTransportCfg_eq, Bridge.HttpWire.transportTags_eq⟩
+   Bridge.HttpWire.newTransport_eq, Bridge.HttpWire.defaultTransportCfg_eq, Bridge.HttpWire.transportTags_eq,
+   Bridge.HttpWire.getBody_eq⟩
 
 /-! ### the unrepaired tree -/
 
@@ -839,5 +920,30 @@ example : Lookup.found [49, 58, 56, 48] ≠ Lookup.found [] := by decide
 example : (if true then httpsPfx else httpPfx) ++ [104] ++ 47 :: [112] =
       [104, 116, 116, 112, 115, 58, 47, 47, 104, 47, 112] ∧
     ([104] : Str).all (fun c => !isAuthEnd c) = true := by decide
+
+/-! round 3 non-vacuity -/
+
+-- three guns on two shared clients, five requests in an interleaved order: hypotheses met, two connections instead of three
+example :
+    (∀ f ∈ ([⟨0, true, false⟩, ⟨1, true, false⟩, ⟨2, true, false⟩, ⟨0, true, false⟩, ⟨1, false, false⟩] : List Flight),
+      f.gun < 3 ∧ f.close = false) ∧
+    connRun true (max 2 1) (([⟨0, true, false⟩, ⟨1, true, false⟩, ⟨2, true, false⟩, ⟨0, true, false⟩, ⟨1, false, false⟩] :
+      List Flight).map (viaShared 2)) = 2 ∧
+    connRun true 3 [⟨0, true, false⟩, ⟨1, true, false⟩, ⟨2, true, false⟩, ⟨0, true, false⟩, ⟨1, false, false⟩] = 3 := by
+  decide
+
+-- a request that asks to close on a shared client does cost the other gun its connection (why `hc` is needed)
+example :
+    connRun true 1 (([⟨0, true, false⟩, ⟨1, true, true⟩, ⟨0, true, false⟩] : List Flight).map (viaShared 1)) = 2 := by decide
+
+-- a limit that bites and one that does not
+example :
+    (provideLim false .uri [] [⟨[], slash⟩, ⟨[], slash⟩, ⟨[], slash⟩] 2 4).1.length = 4 ∧
+    (provideLim false .uri [] [⟨[], slash⟩, ⟨[], slash⟩, ⟨[], slash⟩] 2 9).1.length = 6 := by decide
+
+example : decoyHits true true 3 = 3 ∧ decoyHits true false 3 = 0 := by decide
+
+example : (getBody (BodyRd.fresh [98, 99])).1 = some [98, 99] ∧ (getBody (BodyRd.fresh [])).1 = none ∧
+    (bodyAtDo { answLog := true, dump := true } (BodyRd.fresh [98, 99])).rest = [98, 99] := by decide
 
 end Pandora.Props.C09
